@@ -354,20 +354,48 @@ Definition auth_value (token : string) : string :=
 Definition tag_value (f : op_fact) (a : list string) : string :=
   match of_tag_param f with Some i => nth_s i a | None => "" end.
 
-(* string leaves of the JSON request body, sorted by dotted key (hand-modelled per method) *)
-Definition body_fields (f : op_fact) (a : list string) : list (string * string) :=
+(* leaves of the JSON request body, sorted by dotted key (hand-modelled per method): the string leaves, and the
+   number / boolean leaves (decimal, "true") that name a revision or select a behaviour.  Pointer and omitempty
+   fields are absent when nil / zero. *)
+Definition opt_leaf (k : string) (x : option Z) : list (string * string) :=
+  match x with Some z => [(k, Z_dec z)] | None => [] end.
+
+Definition body_fields (f : op_fact) (a : list string) (n : list (option Z)) : list (string * string) :=
   let nm := of_name f in
   if String.eqb nm "CreateEnvironment" then [("name", nth_s 1 a); ("project", default_project)]
   else if String.eqb nm "CreateEnvironmentWithProject" then [("name", nth_s 2 a); ("project", nth_s 1 a)]
   else if String.eqb nm "CloneEnvironment" then
-    ("name", nth_s 4 a) :: (if String.eqb (nth_s 3 a) "" then [] else [("project", nth_s 3 a)])
+    ("name", nth_s 4 a) :: (if bool_of (nth_n 0 n) then [("preserveHistory", "true")] else [])
+    ++ (if String.eqb (nth_s 3 a) "" then [] else [("project", nth_s 3 a)])
   else if String.eqb nm "CreateEnvironmentTag" then [("name", nth_s 3 a); ("value", nth_s 4 a)]
   else if String.eqb nm "UpdateEnvironmentTag" then
     [("currentTag.name", ""); ("currentTag.value", nth_s 4 a); ("newTag.name", nth_s 5 a); ("newTag.value", nth_s 6 a)]
   else if String.eqb nm "RetractEnvironmentRevision" then
-    (if String.eqb (nth_s 4 a) "" then [] else [("reason", nth_s 4 a)])
-  else if String.eqb nm "CreateEnvironmentRevisionTag" then [("name", nth_s 3 a)]
+    (if String.eqb (nth_s 4 a) "" then [] else [("reason", nth_s 4 a)]) ++ opt_leaf "replacement" (nth_n 0 n)
+  else if String.eqb nm "CreateEnvironmentRevisionTag" then ("name", nth_s 3 a) :: opt_leaf "revision" (nth_n 0 n)
+  else if String.eqb nm "UpdateEnvironmentRevisionTag" then opt_leaf "revision" (nth_n 0 n)
   else [].
+
+(* the string parameters and the numeric arguments a body carries (proof view: [body_fields] determines them) *)
+Definition body_params (f : op_fact) : list nat :=
+  let nm := of_name f in
+  if String.eqb nm "CreateEnvironment" then [1%nat]
+  else if String.eqb nm "CreateEnvironmentWithProject" then [1; 2]%nat
+  else if String.eqb nm "CloneEnvironment" then [3; 4]%nat
+  else if String.eqb nm "CreateEnvironmentTag" then [3; 4]%nat
+  else if String.eqb nm "UpdateEnvironmentTag" then [4; 5; 6]%nat
+  else if String.eqb nm "RetractEnvironmentRevision" then [4%nat]
+  else if String.eqb nm "CreateEnvironmentRevisionTag" then [3%nat]
+  else [].
+
+(* what the body says about the first numeric argument: absent, or its decimal / boolean rendering *)
+Definition body_num (f : op_fact) (n : list (option Z)) : option string :=
+  let nm := of_name f in
+  if String.eqb nm "CloneEnvironment" then (if bool_of (nth_n 0 n) then Some "true" else None)
+  else if String.eqb nm "RetractEnvironmentRevision" || String.eqb nm "CreateEnvironmentRevisionTag"
+          || String.eqb nm "UpdateEnvironmentRevisionTag" then
+    match nth_n 0 n with Some z => Some (Z_dec z) | None => None end
+  else None.
 
 Definition flag_of (f : op_fact) (n : list (option Z)) : bool :=
   if String.eqb (of_flag_suffix f) "" then false else bool_of (nth_n 0 n).
@@ -392,7 +420,7 @@ Definition build_request (f : op_fact) (token : string) (a : list string) (n : l
       Some (mk_req (of_verb f) t (auth_value token)
                    (if header_is etag_header "ETag" then tag else "")
                    (if header_is etag_header "If-Match" then tag else "")
-                   (body_fields f a))
+                   (body_fields f a n))
   end.
 
 (* ------------------------------------------------------------------------------------------------ *)
@@ -655,3 +683,60 @@ Definition retry_ok (f : op_fact) : bool :=
 Definition headers_ok : bool :=
   String.eqb auth_format "token %s" && header_is auth_header "Authorization"
   && (header_is etag_header "ETag" || header_is etag_header "If-Match").
+
+(* ------------------------------------------------------------------------------------------------ *)
+(* the cross-operation view of a path: every segment tagged as a literal ROUTE WORD of the template or as a NAME
+   substituted into it.  Two requests address the same resource iff their tagged segment lists agree. *)
+Inductive tseg := TLit (s : string) | TName (s : string).
+
+Definition tseg_text (t : tseg) : string := match t with TLit s => s | TName s => s end.
+
+Fixpoint tfill (l : list seg) (args : list string) : list tseg :=
+  match l with
+  | [] => []
+  | SLit s :: r => TLit s :: tfill r args
+  | SHole _ :: r => match args with a :: args' => TName a :: tfill r args' | [] => TName "%!v(MISSING)" :: tfill r [] end
+  end.
+
+Fixpoint lits (l : list seg) : list string :=
+  match l with [] => [] | SLit s :: r => s :: lits r | SHole _ :: r => lits r end.
+
+(* the template an operation instantiates for given hole values (resolveEnvironmentPath picks one of two), then
+   its suffixes *)
+Definition base_pattern (f : op_fact) (vals : list string) : list seg :=
+  if of_resolve f then
+    match vals with
+    | [o; p; e; v] => if String.eqb v "" then tpl_segs resolve_template_noversion else tpl_segs resolve_template_version
+    | _ => []
+    end
+  else tpl_segs (of_template f).
+
+Definition base_args (f : op_fact) (vals : list string) : list string :=
+  if of_resolve f then
+    match vals with
+    | [o; p; e; v] => if String.eqb v "" then [o; p; e] else vals
+    | _ => []
+    end
+  else vals.
+
+Definition op_pattern (f : op_fact) (vals : list string) (flag : bool) : list seg :=
+  base_pattern f vals ++ map SLit (suffix_segs (of_suffix f))
+  ++ (if flag then map SLit (suffix_segs (of_flag_suffix f)) else []).
+
+Definition op_route (f : op_fact) (a : list string) (n : list (option Z)) : list tseg :=
+  let vals := hole_values f (effective_args f a) in
+  tfill (op_pattern f vals (flag_of f n)) (base_args f vals).
+
+(* the reserved path words: every literal segment of every template and suffix of the operation table *)
+Definition op_words (f : op_fact) : list string :=
+  lits (tpl_segs (of_template f)) ++ suffix_segs (of_suffix f) ++ suffix_segs (of_flag_suffix f).
+
+Definition route_words : list string :=
+  lits (tpl_segs resolve_template_noversion) ++ lits (tpl_segs resolve_template_version)
+  ++ flat_map op_words client_ops.
+
+Definition is_route_word (s : string) : bool := existsb (String.eqb s) route_words.
+
+(* the decidable class of the known finding C20-route-words: a name or version that is itself a route word *)
+Definition reserved_names (f : op_fact) (a : list string) : bool :=
+  existsb is_route_word (hole_values f (effective_args f a)).
